@@ -17,7 +17,7 @@ RULE = ("every price of the exact domain (ticks 1/8..100 exactly representable x
 EXACT_TICKS = [0.125, 0.25, 0.5, 1.0, 2.0, 3.0, 5.0, 10.0, 100.0]
 DEC_TICKS = [0.1, 0.01, 0.001, 0.00001]
 WIT = ["on_grid_unchanged", "buy_rounded_down", "sell_rounded_up", "adjacent_float_below_grid", "adjacent_float_above_grid",
-       "decimal_tick_case", "market_order_untouched", "large_grid_index"]
+       "decimal_tick_case", "market_order_untouched", "large_grid_index", "same_price_both_sides_one_market"]
 
 
 def neighbourhood(tick, ks):
@@ -105,9 +105,44 @@ def fn(case, wit):
     return cls
 
 
+def seq_cases(tier):
+    """the same off-grid price submitted to ONE market on both sides, in both orders, and repeated"""
+    ks = [0, 1, 2, 3, 7, 40, 1000]
+    for tick, exact in [(t, True) for t in EXACT_TICKS] + [(t, False) for t in DEC_TICKS]:
+        for p in neighbourhood(tick, ks):
+            for order in ((True, False), (False, True), (True, True, False), (False, False, True)):
+                yield (tick, exact, p, order)
+
+
+def seq_fn(case, wit):
+    tick, exact, p, order = case
+    m = Market(0, None, None, "m")
+    m.setup({"tickSize": tick, "marketPrice": 100.0})
+    m._update_time(100.0)
+    m._is_running = False  # orders only rest: the book may cross, nothing is matched
+    got = []
+    for is_buy in order:
+        o = Order(0, 0, is_buy, LIMIT_ORDER, 1, price=p)
+        m._add_order(o)
+        got.append(o.price)
+    ft, fp = F(tick), F(p)
+    slack = 0 if exact else 4 * F(math.ulp(p))
+    for is_buy, a in zip(order, got):
+        fa = F(a)
+        if (is_buy and fa > fp + slack) or (not is_buy and fa < fp - slack):
+            raise Violation("C19.more_aggressive", "an off-grid %s price was moved %s (more aggressive)" % (
+                ("buy", "up") if is_buy else ("sell", "down")),
+                "tick %r price %r sides submitted to one market in the order %s -> accepted %r" % (tick, p, ["buy" if b else "sell" for b in order], got))
+        if abs(fa - fp) >= ft + slack:
+            raise Violation("C19.too_far", "an off-grid price was moved by a tick or more", "tick %r price %r -> %r" % (tick, p, got))
+    wit.inc("same_price_both_sides_one_market")
+    return (tick, order)
+
+
 def run(tier, seed):
     res = common.Result("C19", tier, seed)
     run_grid(res, "tick_rounding", list(cases(tier)), fn, seed)
+    run_grid(res, "same_price_both_sides", list(seq_cases(tier)), seq_fn, seed)
     res.coverage["exhaustive"] = True
     res.coverage["rule"] = RULE
     res.assumptions = ["on decimal tick sizes each inequality is allowed a slack of 4 ulp(price) and 'grid point' means the float k*tick (the property's own 'up to floating-point representation of the grid' clause)",
@@ -117,6 +152,16 @@ def run(tier, seed):
 
 
 def replay(payload):
+    if payload.get("grid") == "same_price_both_sides":
+        c = payload["case"]
+        try:
+            seq_fn((c[0], c[1], c[2], tuple(c[3])), common.Counter())
+        except Violation as v:
+            print("  ==> VIOLATION %s: %s" % (v.monitor, v.msg))
+            print("VIOLATION property=C19 replay=(this file)")
+            return 1
+        print("replay: no violation on this tree")
+        return 0
     case = tuple(payload["case"])
     print("case (tick, exact domain, price, is_buy) =", case)
     try:
